@@ -303,3 +303,59 @@ package channel
 //@ func (*Allocation).Equal
 //@   requires b != nil && allocNonNil(a) && allocNonNil(b)
 //@   ensures result == nil <==> allocEq(a, b)
+
+// ---------------------------------------------------------------------------
+// Clones (C19): equal view, and every mutable location reachable from the clone
+// is allocated during the call (fresh), hence shared with nothing that existed
+// before.
+// ---------------------------------------------------------------------------
+
+//@ func CloneIndexMap
+//@   ensures (orig == nil) == (clone == nil) && len(clone) == len(orig)
+//@   ensures orig != nil ==> fresh(arr(clone)) && off(clone) == 0
+//@   ensures forall i int :: 0 <= i && i < len(orig) ==> clone[i] == old(orig[i])
+
+// balsCloned(c, o): c is a deep copy of the balance vector o.
+//@ pred balsCloned(c []Bal, o []Bal) =
+//@   (o == nil) == (c == nil) && len(c) == len(o) && (o != nil ==> fresh(arr(c))) &&
+//@   forall j int :: 0 <= j && j < len(o) ==> fresh(c[j]) && val(c[j]) == old(val(o[j]))
+
+//@ func (Balances).Clone
+//@   requires nonNilBalances(b)
+//@   ensures (b == nil) == (result == nil) && len(result) == len(b)
+//@   ensures b != nil ==> fresh(arr(result)) && off(result) == 0
+//@   ensures forall i int :: 0 <= i && i < len(b) ==> balsCloned(result[i], b[i])
+//@   loop 1
+//@     modifies clone[*]
+//@     invariant len(clone) == len(b) && fresh(arr(clone)) && off(clone) == 0
+//@     invariant forall k int :: 0 <= k && k < $i ==> balsCloned(clone[k], b[k])
+
+// A cloned sub-allocation: same ID, deep copies of the balance vector and of the index map.
+//@ pred idxMapCloned(c []Index, o []Index) =
+//@   len(c) == len(o) && fresh(arr(c)) && forall j int :: 0 <= j && j < len(o) ==> c[j] == old(o[j])
+
+//@ func NewSubAlloc
+//@   ensures result != nil && fresh(result) && result.ID == id && result.Bals == bals && result.IndexMap != nil
+//@   ensures indexMap != nil ==> result.IndexMap == indexMap
+//@   ensures indexMap == nil ==> len(result.IndexMap) == 0 && fresh(arr(result.IndexMap))
+
+//@ func (Allocation).Clone
+//@   requires nonNilBalances(a.Balances) && nonNilLocked(a.Locked)
+//@   ensures (a.Backends == nil) == (clone.Backends == nil) && len(clone.Backends) == len(a.Backends) && (a.Backends != nil ==> fresh(arr(clone.Backends)))
+//@   ensures forall i int :: 0 <= i && i < len(a.Backends) ==> clone.Backends[i] == old(a.Backends[i])
+//@   ensures (a.Assets == nil) == (clone.Assets == nil) && len(clone.Assets) == len(a.Assets) && (a.Assets != nil ==> fresh(arr(clone.Assets)))
+//@   ensures forall i int :: 0 <= i && i < len(a.Assets) ==> clone.Assets[i] == old(a.Assets[i])
+//@   ensures (a.Balances == nil) == (clone.Balances == nil) && len(clone.Balances) == len(a.Balances) && (a.Balances != nil ==> fresh(arr(clone.Balances)))
+//@   ensures forall i int :: 0 <= i && i < len(a.Balances) ==> balsCloned(clone.Balances[i], a.Balances[i])
+//@   ensures (a.Locked == nil) == (clone.Locked == nil) && len(clone.Locked) == len(a.Locked) && (a.Locked != nil ==> fresh(arr(clone.Locked)))
+//@   ensures forall i int :: 0 <= i && i < len(a.Locked) ==> clone.Locked[i].ID == a.Locked[i].ID
+//@   ensures forall i int :: 0 <= i && i < len(a.Locked) ==> balsCloned(clone.Locked[i].Bals, a.Locked[i].Bals)
+//@   ensures forall i int :: 0 <= i && i < len(a.Locked) ==> idxMapCloned(clone.Locked[i].IndexMap, a.Locked[i].IndexMap)
+//@   loop 1
+//@     modifies clone.Locked[*]
+//@     invariant len(clone.Locked) == len(a.Locked) && fresh(arr(clone.Locked)) && off(clone.Locked) == 0
+//@     invariant forall k int :: 0 <= k && k < $i ==> clone.Locked[k].ID == a.Locked[k].ID
+//@     invariant forall k int :: 0 <= k && k < $i ==> balsCloned(clone.Locked[k].Bals, a.Locked[k].Bals)
+//@     invariant forall k int :: 0 <= k && k < $i ==> len(clone.Locked[k].IndexMap) == len(a.Locked[k].IndexMap)
+//@     invariant forall k int :: 0 <= k && k < $i ==> fresh(arr(clone.Locked[k].IndexMap))
+//@     invariant forall k int :: 0 <= k && k < $i ==> forall j int :: 0 <= j && j < len(a.Locked[k].IndexMap) ==> clone.Locked[k].IndexMap[j] == old(a.Locked[k].IndexMap[j])
